@@ -81,6 +81,24 @@ Fixpoint yaml_import (y : ynode) (root : node) : node * bool :=
 Definition import_document (y : ynode) (root : node) : node * bool :=
   yaml_import y (fst (vdelete root dot)).
 
+(* The two public importers as coded (src/vnaproperty_import_yaml_from_file.c, _from_string.c; their
+   bodies differ only in how the parser gets its input).  [yload] is what yaml_parser_load and
+   yaml_document_get_root_node deliver:
+     YSyntaxError     yaml_parser_load failed: error callback, return -1; *rootptr has not been touched
+     YEmptyDocument   no root node ("empty YAML document"): error callback, return -1; *rootptr not touched
+     YDocument y      vnaproperty_delete(rootptr, ".") - the old content is released whatever the document
+                      is, the plain null "~" included - then _vnaproperty_yaml_import(y) into the now empty
+                      root; if that fails half way (a key that is not a descriptor), -1 is returned and
+                      *rootptr keeps the part imported so far: the old content is gone in every case.
+   Result: the node left in *rootptr and success (return value 0). *)
+Inductive yload := YSyntaxError | YEmptyDocument | YDocument (y : ynode).
+
+Definition import_public (l : yload) (root : node) : node * bool :=
+  match l with
+  | YSyntaxError | YEmptyDocument => (root, false)
+  | YDocument y => import_document y root
+  end.
+
 (* one admissible behaviour of "emit then parse": every scalar that may come back plain does *)
 Fixpoint yaml_rt_ideal (y : ynode) : ynode :=
   match y with
